@@ -343,16 +343,23 @@ def run(ctx, res):
     if not tcs:
         raise AnalysisBroken("%s no longer creates the streamer thread" % f_start.name)
     tset = {(b, i) for b, i, s in tcs}
-    for field in ("im.frame_id", "im.last_emitted_frame_id"):
+    for field in ("im.frame_id", "im.last_emitted_frame_id", "software_trigger.triggered"):
         def resets(s, field=field):
             for lv, op, rhs, whole in ir.writes_of(s):
                 if lv.get("k") == "mem" and obj_key(lv) == (CAM_REC, field) and op == "=" and ir.is_const(rhs):
+                    if field == "software_trigger.triggered" and not ir.is_const(rhs, 0):
+                        continue
                     return True
             return False
         ok, w = paths.all_paths_pass(f_start, "entry", tset, resets)
         inst = "%s resets %s before thread_create" % (f_start.name, field)
         if ok:
             res.oblige("R-RESTART", inst, True, "constant store on every path", f_start.loc())
+        elif field == "software_trigger.triggered":
+            res.fail("R-RESTART", inst, "R-RESTART|%s|%s" % (f_start.name, field), f_start.loc(),
+                     "%s can create the streamer thread without clearing software_trigger.triggered: the stop of the previous run sets it to wake a waiting streamer "
+                     "(and nobody consumes it when the streamer was not waiting), so the new run delivers a frame before any trigger was fired" % f_start.name,
+                     {"path_blocks": w})
         else:
             res.fail("R-RESTART", inst, "R-RESTART|%s|%s" % (f_start.name, field), f_start.loc(),
                      "%s can create the streamer thread without resetting %s: ids continue from the previous run" % (f_start.name, field),
@@ -362,5 +369,5 @@ def run(ctx, res):
     res.require_min("L-RECHECK", 2)
     res.require_min("R-STOP-WAKES", 3)
     res.require_min("R-TRIGGER-GATE", 2)
-    res.require_min("R-RESTART", 2)
+    res.require_min("R-RESTART", 3)
     res.require_min("R-FRESH", 6)
